@@ -35,6 +35,9 @@ META = dict(
 UOPS = dict(next=0, add=1, done=2, skip=3, skipif=4, stop=5, end=6)
 
 # ------------------------------------------------------------------------------------------------
+# regenerated from the source by setup.sh and by every run
+GENERATED = {'Gen/SchedProg.v': sched_prog.translate}
+
 def _pg():
   import pyglove as pg
   from pyglove.core.tuning import protocols
